@@ -169,11 +169,12 @@ def step (s : AnState) : Op → AnState × Out
         | none => (s1, .fail)
         | some tr => ({ s1 with tree := tr }, .ok)
   | .writeann t annref text =>
+    -- /repo 3d2a8cf: an empty text is refused before anything is created (before that the zero-length
+    -- `Hwrite`/`Hputelement` reported failure only after the element and its prefix existed — finding `an-write-empty`)
+    if text.isEmpty then (s, .fail) else
     match tagOfType t, treeFind (AN_CREATE_KEY t annref) s.tree with
     | some tag, some e =>
-      -- a zero-length `Hwrite`/`Hputelement` reports failure, but only after the element (and its prefix) exists
-      ({ s with elems := elemPut (tag, annref) (encodeAnn t (e.elmtag, e.elmref) text) s.elems },
-        if text.isEmpty then .fail else .ok)
+      ({ s with elems := elemPut (tag, annref) (encodeAnn t (e.elmtag, e.elmref) text) s.elems }, .ok)
     | _, _ => (s, .fail)
   | .readann t annref maxlen =>
     match tagOfType t with
